@@ -46,6 +46,10 @@ class Spec:
     def describe(self, case):
         return case
 
+    def derived(self, label, cases, impl):
+        """cases for a second model derived from the harness output: (cases, expected)"""
+        return [], []
+
 
 def _fingerprint_known(known, fp):
     for e in known:
@@ -101,6 +105,12 @@ def check(spec, tier, seed, replay=None):
         if drv is None:
             continue
         model = C.run_driver(drv, cases)
+        dcases, dimpl = spec.derived(label, cases, impl)
+        if dcases:
+            dmodel = C.run_driver(drv, dcases)
+            cases, impl, model = cases + dcases, impl + dimpl, model + dmodel
+            stats["derived:" + label] = len(dcases)
+            total += len(dcases)
         for c, i, m in zip(cases, impl, model):
             cell = spec.cell(c, i)
             if cell is not None:
